@@ -208,7 +208,11 @@ func runHistory(id int, seed int64, nops int, base string, pool *storeh.Pool, re
 				os.RemoveAll(im.dir) // complete operation: not a crash point
 				continue
 			}
-			post := evalImage(im.dir, pool, 561+int64(len(h.Cases)%30))
+			ftok := 561 + int64(len(h.Cases)%30)
+			if ftok == pool.Genesis {
+				ftok = 595 // never hand the genesis header itself to the follow-up append
+			}
+			post := evalImage(im.dir, pool, ftok)
 			os.RemoveAll(im.dir)
 			h.Cases = append(h.Cases, Case{
 				ID: id*1000 + len(h.Cases), Prefix: prefix, Cop: op, K: im.k, Torn: im.torn,
